@@ -102,6 +102,11 @@ Definition pick_obs (queued is_client in_channel i : bool) : Z :=
   | PQueued => 0 | PWait => 1 | PNil => 1 | PDraw => 2 | PKeepAlive => 3 | PNop => 3
   end.
 
+(* ---- keyNextSync's guard: may the roll announce a new pair at all ------------------------ *)
+(* only a client, only when no pair is pending, never while the Session is being migrated (Migrate
+   has already marshalled the current keys for the new process) *)
+Definition roll_allowed (is_client pending moving : bool) : bool := is_client && negb pending && negb moving.
+
 (* ---- the two ends ----------------------------------------------------------- *)
 Section Machine.
   Variables priv point : Type.
@@ -445,7 +450,8 @@ Inductive case :=
 | CFill (old bytes out : list Z)              (* fillShared over the previous share `old`, ECDH bytes from crypto/ecdh *)
 | CHist (tab : list (Z * Z * list Z)) (k0 s0 : Z) (rounds : list (list (event Z) * obs))
 | CPick (queued is_client in_channel i : bool) (observed : Z)
-| CHex (key : list Z) (digits : list (Z * Z)).                  (* digits of PublicKey/PrivateKey.String() of these key bytes *)   (* the real pick() called repeatedly in this situation *)
+| CHex (key : list Z) (digits : list (Z * Z))
+| CRoll (is_client pending moving drew : bool).                 (* the real keyNextSync, roll forced, in this situation *)                  (* digits of PublicKey/PrivateKey.String() of these key bytes *)   (* the real pick() called repeatedly in this situation *)
 
 Definition check (c : case) : bool :=
   match c with
@@ -453,6 +459,7 @@ Definition check (c : case) : bool :=
   | CFill old bytes out => zlist_eqb (fill_shared old bytes) out
   | CHist tab k0 s0 rounds => run_rounds tab (init (fun x => x) k0 s0) rounds
   | CPick queued is_client in_channel i observed => pick_obs queued is_client in_channel i =? observed
+  | CRoll is_client pending moving drew => Bool.eqb (roll_allowed is_client pending moving) drew
   | CHex key digits =>
     list_eqb (fun '(a, b) '(c, d) => (a =? c) && (b =? d)) (hex_enc key) digits && zlist_eqb (hex_dec digits) key
   end.
